@@ -76,9 +76,9 @@ var props = map[string]*PropSpec{
 		ID: "C06", Cone: []ConeItem{edBatch, {Pkg: "internal/ge25519", Funcs: []string{"UnpackNegativeVartime", "CofactorMultiply", "IsNeutralVartime"}}, {Pkg: "internal/modm", Funcs: []string{"Expand", "Mul", "Add"}}}, Quick: twoLayouts, Thorough: allSix, Technique: techGovc,
 		Trusted: []string{
 			"multiScalarmultVartime and the Bos-Coster heap are NOT verified (trusted contract: memory safety and magnitudes only); therefore the batch equation itself -- that the point tested for neutrality is the randomised combination of the entries -- is not proved, and neither is the probabilistic soundness (a batch passing the equation consists of valid entries except with probability 2^-120; M7), which no deductive verifier can state",
-			"what IS proved for every batch length, every chunking and every mixture of entries: (G1) an entry that single verification accepts is never reported false -- equivalently every entry reported false is rejected by single verification; (G2) the summary flag is exactly the conjunction of the entries; the result vector is fresh and has one element per entry; (S1) when a chunk is decided by the batch equation, every entry of it has passed every non-equation acceptance condition of single verification under the same options (lengths, option/hash admissibility, decodability of A and R, small-order rejection unless ZIP-215); entries decided by the fallback or the remainder loop carry exactly single verification's verdict",
+			"what IS proved for every batch length, every chunking and every mixture of entries: (G1) an entry that single verification accepts is never reported false -- equivalently every entry reported false is rejected by single verification; (G2) the summary flag is exactly the conjunction of the entries; the result vector is fresh and has one element per entry; (S1) when a chunk is decided by the batch equation, every entry of it has passed every non-equation acceptance condition of single verification under the same options (lengths, option/hash admissibility, decodability of A and R, small-order rejection unless ZIP-215); entries decided by the fallback or the remainder loop carry exactly single verification's verdict; (H) the challenge hashed for each entry of a chunk is SHA-512(dom2(variant, context) || R || A || M) mod L for the variant and context single verification uses",
 		},
-		Assumptions: []string{"the clause 'reported true => single verification accepts' for entries of a chunk accepted by the batch equation rests on the two unproved items above; a change that corrupts the scalars or points handed to multiScalarmultVartime (e.g. a wrong hash prefix in the batch path) is therefore NOT detected by this check"},
+		Assumptions: []string{"the clause 'reported true => single verification accepts' for entries of a chunk accepted by the batch equation rests on the two unproved items above; a change that corrupts how the scalars or points handed to multiScalarmultVartime are combined (randomisers, products, negations) without touching the checks, the hash input or the per-entry bookkeeping is therefore NOT detected by this check"},
 	},
 	"C07": {
 		ID: "C07", Cone: []ConeItem{{Pkg: ".", Funcs: []string{"(*Options).unwrap", "checkHash", "(*Options).HashFunc", "verifyWithOptionsNoPanic", "VerifyWithOptions", "verify", "sign", "(PrivateKey).Sign", "Sign"}}}, Quick: twoLayouts, Thorough: allSix, Technique: techGovc,
